@@ -570,6 +570,6 @@ func init() {
 			"for a stream expected to log in, the bytes after the login are delivered once the login's own transactions were written (the server drops queued replies when the connection ends)",
 			"bystander inboxes are read after a keep-alive round trip on each bystander (everything queued earlier on the outbox has been handed to its writer by then)",
 		}
-		x.Add(&Family{Name: "unauth-gate", Quick: 2600, Thor: 40000, Run: c04Family})
+		x.Add(&Family{Name: "unauth-gate", Quick: 2600, Thor: 30000, Run: c04Family})
 	}
 }
